@@ -25,6 +25,10 @@ pub enum Op {
     Reopen,
     Gc,
     WaitMerges,
+    /// switch the writer's merge policy (0 = NoMergePolicy, 1 = eager LogMergePolicy)
+    SetPolicy(u8),
+    /// prepare_commit() (flushes the indexing workers: their segments are registered, merge policies run) then abort()
+    PrepareAbort,
 }
 
 impl Op {
@@ -38,6 +42,8 @@ impl Op {
             Op::Reopen => json!("reopen"),
             Op::Gc => json!("gc"),
             Op::WaitMerges => json!("wait_merges"),
+            Op::SetPolicy(p) => json!({"set_policy": p}),
+            Op::PrepareAbort => json!("prepare_commit_then_abort"),
         }
     }
 }
@@ -49,6 +55,9 @@ pub struct Cfg {
     pub merge_policy: u8,
     /// stop the history at the first failed API call (used with permanent faults: everything after fails too)
     pub stop_on_error: bool,
+    /// after a commit call failed and the writer was recovered, issue the operations since the last successful
+    /// commit AGAIN (once): what an application does with a batch whose commit failed on a transient error
+    pub replay_failed_commit: bool,
 }
 
 pub fn gen_history(rng: &mut Rng, len: usize, next_id: &mut u64) -> Vec<Op> {
@@ -87,6 +96,28 @@ pub fn gen_history(rng: &mut Rng, len: usize, next_id: &mut u64) -> Vec<Op> {
             *next_id += 1;
             ops.push(Op::Add { id: *next_id, tag: rng.below(5) as u8, nwords: 2 });
             ops.push(if rng.chance(1, 2) { Op::WaitMerges } else { Op::MergeAll });
+        }
+        //  * several COMMITTED segments pile up under NoMergePolicy, then an eager merge policy is installed and the
+        //    workers are flushed (wait_merging_threads / prepare_commit+abort / explicit merge) while deletes are queued
+        //    but NOT committed: policy-triggered merges of committed segments must not bake those deletes in
+        else if r2 < 15 {
+            ops.push(Op::SetPolicy(0));
+            let mut tags = vec![];
+            for _ in 0..rng.range(2, 4) {
+                *next_id += 1;
+                let tag = rng.below(5) as u8;
+                tags.push(tag);
+                ops.push(Op::Add { id: *next_id, tag, nwords: 2 });
+                *next_id += 1;
+                ops.push(Op::Add { id: *next_id, tag: (tag + 1) % 5, nwords: 3 });
+                ops.push(Op::Commit);
+            }
+            ops.push(Op::SetPolicy(1));
+            ops.push(Op::DelTerm(tags[rng.below(tags.len() as u64) as usize]));
+            *next_id += 1;
+            ops.push(Op::Add { id: *next_id, tag: rng.below(5) as u8, nwords: 2 });
+            ops.push(match rng.below(3) { 0 => Op::WaitMerges, 1 => Op::PrepareAbort, _ => Op::Rollback });
+            since_commit = 1;
         }
         if since_commit > 9 { ops.push(Op::Commit); since_commit = 0; }
     }
@@ -134,6 +165,10 @@ pub struct RunResult {
     pub api: Vec<ApiObs>,
     pub panicked: Option<String>,
     pub committed: BTreeSet<u64>,
+    /// directory state (files, managed list, files of meta.json) right after an explicit garbage collection that
+    /// directly follows a returned commit, taken only when no merge can be running (NoMergePolicy; explicit merges
+    /// are waited for): (op index, state)
+    pub probes: Vec<(usize, (Vec<String>, Vec<String>, Vec<String>))>,
 }
 
 fn set_policy(w: &IndexWriter<TantivyDocument>, cfg: &Cfg) {
@@ -147,9 +182,9 @@ fn set_policy(w: &IndexWriter<TantivyDocument>, cfg: &Cfg) {
     }
 }
 
-fn new_writer(index: &Index, cfg: &Cfg) -> tantivy::Result<IndexWriter<TantivyDocument>> {
+fn new_writer(index: &Index, cfg: &Cfg, policy: u8) -> tantivy::Result<IndexWriter<TantivyDocument>> {
     let w = index.writer_with_num_threads::<TantivyDocument>(cfg.threads, 15_000_000 * cfg.threads)?;
-    set_policy(&w, cfg);
+    set_policy(&w, &Cfg { merge_policy: policy, ..cfg.clone() });
     Ok(w)
 }
 
@@ -163,7 +198,7 @@ pub fn run_history(vd: &VerifDirectory, ops: &[Op], cfg: &Cfg, recover_by_rollba
 /// Same, on an index that already exists (`existing`), e.g. one that reader threads are watching.
 pub fn run_history_on(vd: &VerifDirectory, existing: Option<Index>, ops: &[Op], cfg: &Cfg, recover_by_rollback: bool) -> RunResult {
     let (schema, f) = schema();
-    let mut res = RunResult { index: None, commits: vec![], attempted: vec![], api: vec![], panicked: None, committed: BTreeSet::new() };
+    let mut res = RunResult { index: None, commits: vec![], attempted: vec![], api: vec![], panicked: None, committed: BTreeSet::new(), probes: vec![] };
     let index = match existing {
         Some(ix) => ix,
         None => match guarded(|| Index::create(vd.clone(), schema.clone(), IndexSettings::default())) {
@@ -178,6 +213,8 @@ pub fn run_history_on(vd: &VerifDirectory, existing: Option<Index>, ops: &[Op], 
     let mut tags: HashMap<u64, u8> = HashMap::new();
     let mut working: BTreeSet<u64> = BTreeSet::new();
     let mut committed: BTreeSet<u64> = BTreeSet::new();
+    let mut policy = cfg.merge_policy;
+    let mut always_no_merge = cfg.merge_policy == 0;
 
     macro_rules! obs {
         ($i:expr, $what:expr, $r:expr) => {{
@@ -188,9 +225,13 @@ pub fn run_history_on(vd: &VerifDirectory, existing: Option<Index>, ops: &[Op], 
         }};
     }
 
-    for (i, op) in ops.iter().enumerate() {
+    let mut queue: std::collections::VecDeque<usize> = (0..ops.len()).collect();
+    let mut last_ok_commit: Option<usize> = None;
+    let mut replayed = false;
+    while let Some(i) = queue.pop_front() {
+        let op = &ops[i];
         if writer.is_none() {
-            match guarded(|| new_writer(&index, cfg)) {
+            match guarded(|| new_writer(&index, cfg, policy)) {
                 Ok(Ok(w)) => { writer = Some(w); }
                 Ok(Err(e)) => { res.api.push(ApiObs { op_index: i, what: "writer", ok: false, err: format!("{e}"), log_seq: vd.log_len() }); continue; }
                 Err(p) => { res.panicked = Some(p); break; }
@@ -218,6 +259,7 @@ pub fn run_history_on(vd: &VerifDirectory, existing: Option<Index>, ops: &[Op], 
                     if let Ok(opstamp) = &r {
                         vd.mark(&format!("commit_ret:{opstamp}"));
                         committed = working.clone();
+                        last_ok_commit = Some(i);
                         res.commits.push(CommitRec { call_seq, ret_seq: vd.log_len(), opstamp: *opstamp, content: committed.clone() });
                     } else {
                         res.attempted.push((call_seq, working.clone()));
@@ -241,7 +283,20 @@ pub fn run_history_on(vd: &VerifDirectory, existing: Option<Index>, ops: &[Op], 
                 }
                 Op::Gc => {
                     let r = w.garbage_collect_files().wait();
-                    obs!(i, "gc", r);
+                    let ok = obs!(i, "gc", r);
+                    if ok && always_no_merge && i > 0 && ops[i - 1] == Op::Commit && res.api.iter().rev().nth(1).map(|a| a.what == "commit" && a.ok && a.op_index == i - 1).unwrap_or(false) {
+                        res.probes.push((i, dir_state(vd)));
+                    }
+                }
+                Op::SetPolicy(p) => {
+                    policy = *p;
+                    if *p != 0 { always_no_merge = false; }
+                    set_policy(w, &Cfg { merge_policy: *p, ..cfg.clone() });
+                }
+                Op::PrepareAbort => {
+                    // abort() is a rollback: the writer goes back to the last commit
+                    let r = w.prepare_commit().and_then(|pc| pc.abort());
+                    if obs!(i, "prepare_commit_abort", r) { working = committed.clone(); } else { failed = true; }
                 }
                 Op::Reopen | Op::WaitMerges => {}
             }
@@ -272,6 +327,7 @@ pub fn run_history_on(vd: &VerifDirectory, existing: Option<Index>, ops: &[Op], 
                 drop(writer.take());
             }
             vd.mark("recovered");
+            let mut published_anyway = false;
             // A commit that reported an error may or may not have been published (the error can strike after
             // the atomic replace of meta.json, e.g. in the directory sync that makes it durable): like after a
             // crash, the state is the previous commit OR the attempted one. Continue from what is really there.
@@ -279,6 +335,7 @@ pub fn run_history_on(vd: &VerifDirectory, existing: Option<Index>, ops: &[Op], 
                 if matches!(op, Op::Commit) {
                     if let Ok(now) = read_ids(&index) {
                         if &now == attempted && now != committed {
+                            published_anyway = true;
                             committed = now;
                             res.commits.push(CommitRec { call_seq: vd.log_len(), ret_seq: vd.log_len(), opstamp: u64::MAX, content: committed.clone() });
                         }
@@ -287,6 +344,13 @@ pub fn run_history_on(vd: &VerifDirectory, existing: Option<Index>, ops: &[Op], 
             }
             working = committed.clone();
             if cfg.stop_on_error { break; }
+            // (a failed commit that turns out to be published must not be issued again: its documents are in)
+            if cfg.replay_failed_commit && matches!(op, Op::Commit) && !replayed && !published_anyway {
+                replayed = true;
+                vd.mark("replaying_failed_batch");
+                let start = last_ok_commit.map(|x| x + 1).unwrap_or(0);
+                for j in (start..=i).rev() { queue.push_front(j); }
+            }
         }
     }
     if let Some(w) = writer.take() {
@@ -389,6 +453,34 @@ pub fn to_events(log: &[Event], ids: &mut PathIds) -> (Vec<Ev>, Vec<usize>) {
     (evs, seqs)
 }
 
+/// storage log -> events of WriteOnce.v: creations, appends (bytes accepted) and terminations of stream files.
+/// Consecutive appends to one file are summed (the model's state is per file, so this only shortens the trace).
+pub fn to_wevents(log: &[Event], ids: &mut PathIds) -> Vec<String> {
+    #[derive(Clone)]
+    enum W { Open(u64), Append(u64, u64), Term(u64) }
+    let mut out: Vec<W> = vec![];
+    let mut last_append: HashMap<u64, usize> = HashMap::new(); // path -> index in `out` of its trailing append
+    for e in log {
+        // lock files and the like (dot files) are created and deleted over and over: not index data
+        if e.path.starts_with('.') { continue; }
+        match e.kind {
+            OpKind::Create if e.result == "Ok" => { let p = ids.id(&e.path); last_append.remove(&p); out.push(W::Open(p)); }
+            OpKind::Write => {
+                let n = e.accepted as u64;
+                if n == 0 { continue; }
+                let p = ids.id(&e.path);
+                match last_append.get(&p) {
+                    Some(i) => { if let W::Append(_, m) = &mut out[*i] { *m += n; } }
+                    None => { last_append.insert(p, out.len()); out.push(W::Append(p, n)); }
+                }
+            }
+            OpKind::Terminate if e.result == "Ok" => { let p = ids.id(&e.path); last_append.remove(&p); out.push(W::Term(p)); }
+            _ => {}
+        }
+    }
+    out.iter().map(|w| match w { W::Open(p) => format!("WOpen {p}"), W::Append(p, n) => format!("WAppend {p} {n}"), W::Term(p) => format!("WTerm {p}") }).collect()
+}
+
 pub fn ev_term(e: &Ev) -> String {
     match e {
         Ev::Create(p) => format!("ECreate {p}"),
@@ -416,18 +508,18 @@ pub struct CrashSim {
     base: BTreeMap<String, Option<Vec<u8>>>, // name -> Some(bytes) for atomic files, None for stream files
     pend: Vec<DirOp>,
     written: HashMap<String, Vec<u8>>,       // bytes accepted so far per stream file
-    terminated: BTreeSet<String>,
+    synced: HashMap<String, usize>,          // stream file -> number of its bytes that were fsynced (length at its last terminate)
 }
 
 impl CrashSim {
     pub fn at(log: &[Event], k: usize) -> CrashSim {
-        let mut s = CrashSim { base: BTreeMap::new(), pend: vec![], written: HashMap::new(), terminated: BTreeSet::new() };
+        let mut s = CrashSim { base: BTreeMap::new(), pend: vec![], written: HashMap::new(), synced: HashMap::new() };
         for e in log.iter().take(k) {
             match e.kind {
                 OpKind::Write => { s.written.entry(e.path.clone()).or_default().extend_from_slice(&e.data[..e.accepted.min(e.data.len())]); }
                 _ if e.result != "Ok" => {}
                 OpKind::Create => { s.pend.push(DirOp::Link(e.path.clone())); s.written.insert(e.path.clone(), vec![]); }
-                OpKind::Terminate => { s.terminated.insert(e.path.clone()); }
+                OpKind::Terminate => { let n = s.written.get(&e.path).map(|w| w.len()).unwrap_or(0); s.synced.insert(e.path.clone(), n); }
                 OpKind::Delete => s.pend.push(DirOp::Unlink(e.path.clone())),
                 OpKind::AtomicWrite => s.pend.push(DirOp::SetAtomic(e.path.clone(), e.data.clone())),
                 OpKind::SyncDir => { let p = std::mem::take(&mut s.pend); for o in p { Self::apply(&mut s.base, &o); } }
@@ -459,10 +551,11 @@ impl CrashSim {
                 Some(b) => b,
                 None => {
                     let w = self.written.get(&name).cloned().unwrap_or_default();
-                    if self.terminated.contains(&name) { w } else {
-                        let cut = if w.is_empty() { 0 } else { rng.below(w.len() as u64 + 1) as usize };
-                        w[..cut].to_vec()
-                    }
+                    // bytes up to the last fsync are durable; of the rest any prefix may have reached the disk
+                    // (half of the time: nothing of it)
+                    let durable = self.synced.get(&name).copied().unwrap_or(0).min(w.len());
+                    let cut = if durable == w.len() || rng.chance(1, 2) { durable } else { durable + rng.below((w.len() - durable) as u64 + 1) as usize };
+                    w[..cut].to_vec()
                 }
             };
             if name.starts_with(".tantivy-") { continue; } // lock files do not survive a process crash as locks
